@@ -616,6 +616,55 @@ func (e *netEnv) runNTSKEServer(a []val) string {
 	return lib.V("1", lib.L(lib.Bool(ok)))
 }
 
+// ---- srv.kestall: connections to the NTS-KE port that stall before or inside the TLS handshake ----
+
+// clientHello is the first flight a TLS client writes (captured from crypto/tls over a pipe).
+func clientHello() []byte {
+	c1, c2 := net.Pipe()
+	defer c1.Close()
+	defer c2.Close()
+	go func() {
+		tc := tls.Client(c1, &tls.Config{InsecureSkipVerify: true, NextProtos: []string{"ntske/1"}, MinVersion: tls.VersionTLS13})
+		tc.SetDeadline(time.Now().Add(2 * time.Second))
+		tc.Handshake()
+	}()
+	buf := make([]byte, 4096)
+	c2.SetReadDeadline(time.Now().Add(2 * time.Second))
+	n, _ := c2.Read(buf)
+	return clone(buf[:n])
+}
+
+// args: number of connections, number of ClientHello bytes each sends (-1: the raw bytes instead),
+// raw bytes.  The connections stay open while the sentinel exchange runs.
+func (e *netEnv) runKEStall(a []val) string {
+	var prefix []byte
+	if a[1].z >= 0 {
+		h := clientHello()
+		prefix = h[:min(int(a[1].z), len(h))]
+	} else {
+		prefix = a[2].b
+	}
+	var conns []net.Conn
+	for i := int64(0); i < a[0].z; i++ {
+		d := &net.Dialer{Timeout: 5 * time.Second, LocalAddr: &net.TCPAddr{IP: e.peerIP}}
+		c, err := d.Dial("tcp", net.JoinHostPort(e.srvIP.String(), "4460"))
+		if err != nil {
+			note("kestall dial: " + err.Error())
+			break
+		}
+		if len(prefix) > 0 {
+			c.Write(prefix)
+		}
+		conns = append(conns, c)
+	}
+	time.Sleep(20 * time.Millisecond)
+	ok := e.keExchange(ntskeRequest(), true)
+	for _, c := range conns {
+		c.Close()
+	}
+	return lib.V("1", lib.L(lib.Bool(ok)))
+}
+
 // ---- srv.quic: datagrams to the QUIC-over-SCION socket of the NTS-KE server ----
 
 func (e *netEnv) quicSentinel() bool {
@@ -684,7 +733,7 @@ func sentinelLost(kind, outs string) bool {
 
 func runNet1(j job) (string, bool) {
 	switch j.kind {
-	case "srv.ip", "srv.scion", "srv.csptp", "srv.ntske", "srv.quic", "cli.ip", "cli.nts", "cli.scion", "cli.csptp":
+	case "srv.ip", "srv.scion", "srv.csptp", "srv.ntske", "srv.kestall", "srv.quic", "cli.ip", "cli.nts", "cli.scion", "cli.csptp":
 	default:
 		return "", false
 	}
@@ -699,6 +748,8 @@ func runNet1(j job) (string, bool) {
 		return e.runCSPTPServer(a), true
 	case "srv.ntske":
 		return e.runNTSKEServer(a), true
+	case "srv.kestall":
+		return e.runKEStall(a), true
 	case "srv.quic":
 		return e.runQUIC(a), true
 	}
